@@ -3,7 +3,7 @@ from __future__ import annotations
 import typing
 
 from .columns import Columns
-from .constants import BOX_SYMBOLS, Align, WHSettings
+from .constants import BOX_SYMBOLS, Align, Sizing, WHSettings
 from .divider import Divider
 from .pile import Pile
 from .solid_fill import SolidFill
@@ -183,6 +183,10 @@ class LineBox(WidgetDecoration[WrappedWidget], delegate_to_widget_mixin("_wrappe
     @property
     def _w(self) -> Pile:
         return self._wrapped_widget
+
+    def sizing(self) -> frozenset[Sizing]:
+        """The frame is drawn by a Pile of Columns around the widget: only what these can render is supported."""
+        return self._wrapped_widget.sizing()
 
     def format_title(self, text: str) -> str:
         if text:
